@@ -239,6 +239,8 @@ class BundleV1(object):
 
         with FileLock(self.lock_filename, directory_permissions=self.directory_permissions,
                       file_permissions=self.file_permissions, remove_on_unlock=True):
+            # create the data file together with the index and under the lock
+            self.data()
             with self.index().readwrite() as idx:
                 x, y = self._rel_tile_coord(tile.coord)
                 idx.remove_tile_offset(x, y)
